@@ -11,6 +11,7 @@
 #include <sstream>
 #include <memory>
 #include <map>
+#include <functional>
 #include <openssl/ssl.h>
 #include <cstring>
 #include <algorithm>
@@ -51,15 +52,19 @@ static std::string payload_token(const char *tag, std::string_view b)
 struct rec_observer : observer
 {
     int id;
+    // armed by the call kind "R": run once, from inside the next callback, before the event is logged
+    // (an observer that reacts to an event by unregistering ANOTHER observer)
+    std::function<void()> armed;
     explicit rec_observer(int i) : id(i) {}
+    void fire() { if (armed) { auto f = std::move(armed); armed = nullptr; f(); } }
     void on_connected(std::string_view hostname, std::uint16_t port) override
-    { logtok("O" + std::to_string(id) + ":c:" + hex(hostname) + ":" + std::to_string(port)); }
+    { fire(); logtok("O" + std::to_string(id) + ":c:" + hex(hostname) + ":" + std::to_string(port)); }
     void on_request(std::string_view command) override
-    { logtok("O" + std::to_string(id) + ":q:" + hex(command)); }
+    { fire(); logtok("O" + std::to_string(id) + ":q:" + hex(command)); }
     void on_reply(const reply & r) override
-    { logtok("O" + std::to_string(id) + ":r:" + std::to_string(r.get_code()) + ":" + hex(r.get_status_string())); }
+    { fire(); logtok("O" + std::to_string(id) + ":r:" + std::to_string(r.get_code()) + ":" + hex(r.get_status_string())); }
     void on_file_list(std::string_view file_list) override
-    { logtok("O" + std::to_string(id) + ":l:" + hex(file_list)); }
+    { fire(); logtok("O" + std::to_string(id) + ":l:" + hex(file_list)); }
 };
 
 struct rec_callback : transfer_callback
@@ -186,6 +191,7 @@ static void run_case(toks & tk, const std::string & certdir)
             else if (k == "F") { has_arg = tk.nbool(); if (has_arg) a1 = tk.nhex(); names = tk.nbool(); }
             else if (k == "X") { graceful = tk.nbool(); }
             else if (k == "+" || k == "-") { obs = tk.nint(); }
+            else if (k == "R") { obs = tk.nint(); port = tk.nint(); }
             else if (k == "M") { a1 = tk.next(); }
             else if (k == "Y") { has_arg = tk.nbool(); }
             try
@@ -257,6 +263,16 @@ static void run_case(toks & tk, const std::string & certdir)
                 {
                     if (!observers.count((int)obs)) observers[(int)obs] = std::make_shared<rec_observer>((int)obs);
                     cl.remove_observer(observers[(int)obs]);
+                    out = "ret:unit";
+                }
+                else if (k == "R")
+                {
+                    // observer <obs> will, from inside its next callback, unregister observer <port>
+                    if (!observers.count((int)obs)) observers[(int)obs] = std::make_shared<rec_observer>((int)obs);
+                    if (!observers.count((int)port)) observers[(int)port] = std::make_shared<rec_observer>((int)port);
+                    std::shared_ptr<rec_observer> target = observers[(int)port];
+                    client *pc = &cl;
+                    observers[(int)obs]->armed = [pc, target]() { pc->remove_observer(target); };
                     out = "ret:unit";
                 }
                 else if (k == "M") { cl.set_transfer_mode(a1 == "A" ? transfer_mode::active : transfer_mode::passive); out = "ret:unit"; }
